@@ -749,7 +749,9 @@ def status_rule(ctx, facts, rid):
     lst = facts.instances(CHAIN_R + "push_uci_list")
     if lst:
         fn = lst[0]
-        callees = [(t["f"].get("ext") or t["f"].get("inst") or "") for _bi, t in fn.body.calls()]
+        # callees of the function and of the closures it defines (a `for` loop or an iterator adapter with a closure)
+        bodies = [fn] + [f for f in facts.fns.values() if f.kind == "Closure" and f.def_path.startswith(fn.def_path + "::{closure")]
+        callees = [(t["f"].get("ext") or t["f"].get("inst") or "") for b_ in bodies for _bi, t in b_.body.calls()]
         ok = any("split_ascii_whitespace" in c for c in callees) and any("::push::<owlchess::moves::make::Uci<&str>>" in c for c in callees)
         r.check(ok, "push_uci_list", "push_uci_list does not split on ASCII whitespace and push make::Uci(token)", site=ctx.site(fn),
                 what="push_uci_list = split_ascii_whitespace + push(Uci(token))")
@@ -830,6 +832,13 @@ def styled_list_rule(ctx, facts, rid):
                         tmpl = _template(facts, pv(e[3][0])) if e[3] else None
                         argv = pv(e[3][1]) if len(e[3]) > 1 else None
                         writes.append((tmpl, argv))
+                    elif e[0] == "call" and (e[2] or "").startswith("core::fmt::Arguments") and (e[2] or "").endswith("::from_str") and e[3]:
+                        a0 = pv(e[3][0])
+                        lit = a0[1] if a0[0] in ("str", "const") and isinstance(a0[1], str) else None
+                        writes.append((lit, None))
+                    elif e[0] == "call" and (e[2] or "").endswith("Formatter::<'a>::write_str") and len(e[3]) > 1:
+                        a1 = pv(e[3][1])
+                        writes.append((a1[1] if a1[0] in ("str", "const") and isinstance(a1[1], str) else None, None))
                 # white-to-move test inside this segment
                 side_white = None
                 for e in seg:
@@ -843,6 +852,9 @@ def styled_list_rule(ctx, facts, rid):
                 texts = []
                 for tmpl, argv in writes:
                     a = show(argv) if argv is not None else ""
+                    if argv is None:
+                        texts.append(("lit", tmpl))
+                        continue
                     if "styled(" in a and "self.style" in a and ".#1" in a and ".#0" in a:
                         kind = "move"
                     elif "GameStatus" in a and "outcome" in a:
@@ -857,9 +869,10 @@ def styled_list_rule(ctx, facts, rid):
                 tag = "fmt/" + key
                 if si == 0:
                     # before the first next(): only the empty-list status
-                    ok = all(k == "status" and t in ("{}",) for k, t in texts)
+                    ok = "".join((t or "?") if k == "lit" else (t or "?").replace("{}", "{%s}" % k.split(":")[0]) for k, t in texts) in ("", "{status}")
                     r.check(ok, tag, "StyledList::fmt writes %s before walking the list" % (texts,), site=ctx.site(fn), what="empty list: status only")
                     continue
+                stream = "".join((t or "?") if k == "lit" else (t or "?").replace("{}", "{%s}" % k.split(":")[0]) for k, t in texts)
                 moves = [x for x in texts if x[0] == "move"]
                 numbers = [x for x in texts if x[0] == "number"]
                 others = [x for x in texts if x[0].startswith("other")]
@@ -869,8 +882,10 @@ def styled_list_rule(ctx, facts, rid):
                                               "nor the status: %s" % (others[0][0],), site=ctx.site(fn))
                     continue
                 item_present = any(e[0] == "branch" and show(pv(e[1])).startswith("discr(next(") and e[2] != "else" and 1 in e[2] for e in seg) or si == 1
+                rv_ = unstamp(path_value(last[1], choices)) if last[0] == "ret" else None
+                err_path = rv_ is not None and rv_[0] == "agg" and rv_[2] == "Err"
                 if not item_present:
-                    ok = not moves and not numbers and all(t == " {}" for _k, t in status)
+                    ok = not moves and not numbers and (stream in ("", " {status}") or (err_path and " {status}".startswith(stream)))
                     r.check(ok, tag + "/end", "after the last move StyledList::fmt writes %s" % (texts,), site=ctx.site(fn), what="end: status ' {}' only")
                     continue
                 if len(moves) != 1:
@@ -879,17 +894,16 @@ def styled_list_rule(ctx, facts, rid):
                     r.fail(tag + "/moves", "one walker step prints %d moves" % len(moves), site=ctx.site(fn))
                     continue
                 if si == 1:
-                    want_t = "{}"
-                    ok = moves[0][1] == want_t
+                    ok = stream == "{move}"
                     if numbers:
-                        ok = ok and len(numbers) == 1 and numbers[0][1] == ("{}. " if side_white else "{}... ") and texts.index(numbers[0]) < texts.index(moves[0])
+                        ok = stream == ("{number}. {move}" if side_white else "{number}... {move}")
                     r.check(ok, tag + "/" + ("white" if side_white else "black" if side_white is not None else "nonum"),
                             "first move is written as %s (side to move white=%s)" % (texts, side_white), site=ctx.site(fn),
                             what="first move: %s" % ([t for _k, t in texts],))
                 else:
-                    ok = moves[0][1] == " {}"
+                    ok = stream == " {move}"
                     if side_white and nums_on is not False and numbers:
-                        ok = ok and len(numbers) == 1 and numbers[0][1] == " {}." and texts.index(numbers[0]) < texts.index(moves[0])
+                        ok = stream == " {number}. {move}"
                     if side_white is False:
                         ok = ok and not numbers
                     if side_white and not numbers:
